@@ -260,6 +260,8 @@ def read_text(text, key, check, disk, scratch, form=3):
         with open(src, "wb") as fh:
             fh.write(text.encode("utf-8"))
     dk, dc = bytes(key) == ZERO_KEY, check is True          # documented defaults: zero key, MAC checking on
+    if form % 3 == 1:
+        check = int(bool(check))                            # an equal value of another type (1 / 0): same behaviour
     if dk and dc and form % 4 == 0:
         return Bf3File.read_file(src)
     if dk and form % 4 == 1:
